@@ -63,8 +63,10 @@ def gen_case(rng, n_ops, faults=False, crashes=False):
         s, su, lvl, _ = rng.choice(sess)
         if me_on and rng.chance(1, 9):
             o = rng.choice([f"sub {s} me", f"sub {s} me", f"sub {s} me", f"leave {s} me", f"leave {s} me", f"unload {su}", f"unload {su}",
-                            f"pub {s} me CM", f"get {s} me desc", f"get {s} me sub", f"get {s} me sub", f"leave {s} me unsub=1", f"drop {s}", "fg S5"])
-            if faults and o.split(" ")[0] in ("sub", "leave", "get") and rng.chance(1, 6):
+                            f"pub {s} me CM", f"get {s} me desc", f"get {s} me sub", f"get {s} me sub", f"leave {s} me unsub=1", f"drop {s}", "fg S5",
+                            f"setsub {s} me mode={rng.choice(['JRWAS', 'JRWPAS', 'JRWPAS', 'N', 'JRWA', 'JP', 'JRWPASDO', 'X'])}", f"setsub {s} me",
+                            f"setsub {s} me user={rng.choice(users)} mode=JRWPAS"])
+            if faults and o.split(" ")[0] in ("sub", "leave", "get", "setsub") and rng.chance(1, 6):
                 out.append(f"fail {1 + rng.below(3)}")      # a store failure, consumed by the request which follows
             out.append(o)
             continue
@@ -639,8 +641,8 @@ WORLD_TRUSTED = [
 ]
 WORLD_ASSUMPTIONS = [
     "group, channel-enabled and peer-to-peer topics and the users' `me` topics ({sub}, {leave}, {pub}, {get desc}, {get sub} - the list of contacts "
-    "with their online flags -, idle unload, and everything the other topics and users tell a user there; not the other requests a `me` topic "
-    "serves: credentials, tags, {set}, {del}, user-agent changes; no fnd/sys), one server node, requests processed one at a time in arrival order, the hub's queue of "
+    "with their online flags -, {set sub} - the user's own mode: without P the user is invisible -, idle unload, and everything the other topics and users tell a user there; not the other requests a `me` topic "
+    "serves: credentials, tags, {set desc}, {del}, user-agent changes; no fnd/sys), one server node, requests processed one at a time in arrival order, the hub's queue of "
     "notifications between topics drained after every request; on-behalf-of (root `as=`) requests are exercised on plain group "
     "topics only; on a channel-enabled topic two users come as readers (`chn` spelling) and two as subscribers, one request in twenty "
     "under the other spelling",
@@ -667,7 +669,8 @@ def scenario_me(rng, k):
                  f"unload {ua}", f"unload {ub}", f"unload P:{':'.join(sorted([ua, ub]))}", f"pub {a} {ub} CP", f"note {b} {ua} read 1",
                  f"setsub {a} {ub} mode=JRW", f"setsub {a} {ub} mode=JRWPA", f"setsub {b} {ua} user={ua} mode=JRW", f"setsub {b} {ua} user={ua} mode=JRWPA",
                  f"leave {a} {ub} unsub=1", f"deltopic {b} {ua}", f"drop {a}", f"drop {b}", "fg S5", "sub S5 me", "sub S4 me", f"setdesc {a} {ub} priv=pvM",
-                 f"delmsg {a} {ub} 1:2", f"delmsg {b} {ua} 1:2 hard=1", f"get {a} me sub", f"get {b} me sub"]
+                 f"delmsg {a} {ub} 1:2", f"delmsg {b} {ua} 1:2 hard=1", f"get {a} me sub", f"get {b} me sub",
+                 f"setsub {a} me mode=JRWAS", f"setsub {a} me mode=JRWPAS", f"setsub {b} me mode=JRWAS", f"setsub {b} me mode=JRWPAS", f"setsub {a} me mode=N"]
         out.append(f"sub {a} {ub}")
         for _ in range(5 + rng.below(10)):
             out.append(rng.choice(steps))
@@ -701,7 +704,8 @@ def scenario_me(rng, k):
                  "pub S1 U2 CY", "sub S4 me", "leave S4 me", "leave S1 me", "sub S1 me", "sub S2 me", "leave S2 me", "unload U1", "unload U2", "unload T1",
                  "unload P:U1:U2", "drop S1", "drop S2", "fg S5", "sub S5 me", "sub S5 " + rd, "note S2 " + rd + " read 1", "setsub S2 " + rd + " mode=JR",
                  "setsub S2 " + rd + " mode=JRP", "setsub S1 T1 user=U3 mode=JRWP", "setdesc S1 T1 pub=pbZ", "deltopic S2 " + rd, "deltopic S1 T1", "pub S3 me CM",
-                 "get S1 me desc", "get S1 me sub", "get S2 me sub", "leave S3 me unsub=1", "setsub S2 U1 mode=JRW", "setsub S2 U1 mode=JRWPA"]
+                 "get S1 me desc", "get S1 me sub", "get S2 me sub", "leave S3 me unsub=1", "setsub S1 me mode=JRWAS", "setsub S1 me mode=JRWPAS", "setsub S2 me mode=JRWA",
+                 "setsub S2 me mode=JRWPAS", "setsub S2 U1 mode=JRW", "setsub S2 U1 mode=JRWPA"]
         for _ in range(6 + rng.below(14)):
             out.append(rng.choice(steps))
             _maybe_restart(rng, out, 30)
